@@ -219,6 +219,7 @@ pub fn run_cases(args: &Args, mut res: SubResult, total: usize, timeout: Duratio
         });
         kids.push((child, out));
     }
+    let pids: Vec<u32> = kids.iter().map(|(c, _)| c.id()).collect();
     for (mut child, out) in kids {
         let status = loop {
             match child.try_wait() {
@@ -226,6 +227,11 @@ pub fn run_cases(args: &Args, mut res: SubResult, total: usize, timeout: Duratio
                 Ok(None) => {
                     if t0.elapsed() > timeout {
                         let _ = child.kill();
+                        for p in &pids {
+                            unsafe {
+                                libc::kill(*p as i32, libc::SIGKILL);
+                            }
+                        }
                         eprintln!("MACHINERY: worker of {} timed out after {:?}", args.subcheck, timeout);
                         std::process::exit(2);
                     }
